@@ -4,8 +4,10 @@
    Response side, for a clean QUERY without TSIG whose catalog entry is a Loaded zone: the query
    model (Model/Query.v) driving the Writer model (Model/MsgWriter.v) through Model/QueryW.v
    (prepare_w, handle_non_axfr_query, finish) with the id / RD / question / EDNS size / limit the
-   request side computed — the response is OCTETS.  Everything else keeps the abstract response of
-   Model/Server.v.  The dispatch is the one of Server.handle_query, repeated here so that a panic
+   request side computed — the response is OCTETS.  Likewise the NOTIMP / REFUSED / SERVFAIL answers
+   to a clean QUERY without TSIG (QueryW.respond_plain: prepare_w, set_rcode, finish).  Everything
+   else (responses decided by the pre-scan, responses with a TSIG, a QUERY without question) keeps the
+   abstract response of Model/Server.v.  The dispatch is the one of Server.handle_query, repeated here so that a panic
    of the response side (respond_w = None) is a Panic of the composed model.  No proofs here.
 
    [zones]: the zone behind a Loaded catalog entry.  [answer]: query answering when the request
@@ -18,16 +20,28 @@ Inductive wresp := RAbs (w : resp) | ROctets (len : nat) (b : bytes).
 
 Definition is_tcp (t : transport) : bool := match t with Tcp => true | Udp => false end.
 
+(* set_rcode(rc) on a clean QUERY: octets when there is no TSIG *)
+Definition plain_w (cfg : config) (buf : bytes) (w : resp) (q : question) (rc : N) : res reader_err wresp :=
+  match Server.w_tsig w with
+  | Some _ => Ok (RAbs (Server.set_rcode w rc))
+  | None =>
+    match respond_plain buf (is_tcp (c_transport cfg)) (Server.w_id w) (Server.w_rd w) (labels_of (Reader.q_name q))
+            (Reader.q_type q) (Reader.q_class q) (option_map fst (Server.w_edns w)) (Server.w_limit w) rc with
+    | Some (len, b) => Ok (ROctets len b)
+    | None => Panic
+    end
+  end.
+
 Definition handle_query_w (zones : nat -> option zone) (negttl : N -> N -> N) (answer : answer_fn)
     (cfg : config) (buf : bytes) (w : resp) : res reader_err wresp :=
   match Server.w_question w with
   | None => Ok (RAbs (Server.set_rcode w RC_FORMERR))
   | Some q =>
     if existsb (N.eqb (Reader.q_type q)) [QTYPE_IXFR; QTYPE_AXFR; QTYPE_MAILB; QTYPE_MAILA]
-    then Ok (RAbs (Server.set_rcode w RC_NOTIMP))
-    else if (Reader.q_class q =? QCLASS_ANY)%N then Ok (RAbs (Server.set_rcode w RC_NOTIMP))
+    then plain_w cfg buf w q RC_NOTIMP
+    else if (Reader.q_class q =? QCLASS_ANY)%N then plain_w cfg buf w q RC_NOTIMP
     else match cat_lookup (c_catalog cfg) (name_key (Reader.q_name q)) (Reader.q_class q) None with
-         | None => Ok (RAbs (Server.set_rcode w RC_REFUSED))
+         | None => plain_w cfg buf w q RC_REFUSED
          | Some e =>
            match e_kind e with
            | ELoaded zid =>
@@ -46,7 +60,7 @@ Definition handle_query_w (zones : nat -> option zone) (negttl : N -> N -> N) (a
                  end
                end
              end
-           | ENotYetLoaded | EFailedToLoad => Ok (RAbs (Server.set_rcode w RC_SERVFAIL))
+           | ENotYetLoaded | EFailedToLoad => plain_w cfg buf w q RC_SERVFAIL
            end
          end
   end.
